@@ -222,7 +222,9 @@ CLAIMS = [
                       "expected space on empty matrices), comatch missing/duplicate sets and the interpreter's pattern assignment; every "
                       "Computation / Value variant that carries a value pattern is validated (binders outside match are one-clause matches) "
                       "and both arenas are visited.",
-        "level_note": "NOT decided: soundness/completeness of the pattern-matrix algorithm against enumeration of values (a different "
+        "level_note": "Round 3: the monadic translation (which runs BEFORE coverage validation) hints its translated scrutinee and tests "
+                      "completeness before looking a destructor's arm up (F55, F56 repaired); one Package layer per existential witness (F57 "
+                      "repaired). NOT decided: soundness/completeness of the pattern-matrix algorithm against enumeration of values (a different "
                       "technique); the traces encode my reading of Maranget's algorithm as implemented and alarm on any semantic edit. Also "
                       "decided: the irrefutability predicate behind alias patterns has no default arm and recurses everywhere. Known finding "
                       "F37: the matrix is not inhabitation-aware (constructors() ignores payload types), so missing patterns that denote no "
@@ -243,7 +245,10 @@ CLAIMS = [
                       "F14 they are reported as an error and left unchanged, which the property's first sentence still counts against the "
                       "formatter (documented in DESIGN.md; not detectable by these rules). F32 (`1e999` printed as `inf`), F33 (metadata strings "
                       "printed with Debug) and F34 (unbounded indent directive) were reported by seeding agents on the unchanged tree and "
-                      "repaired; the literal and directive rules now cover floats, metadata strings and the indent bound.",
+                      "repaired; the literal and directive rules now cover floats, metadata strings and the indent bound. Round 3: the printer's "
+                      "pattern level at the binder of do / fix / param equals the grammar's (read from parser.lalrpop); the verbatim "
+                      "annotation end is the first `]` TOKEN (F61); a named manifest binder keeps its group (F62); formatting time is not "
+                      "decided (F63 repaired two exponential shapes, others remain: findings/candidates/C12).",
     },
     {
         "id": "C13",
@@ -262,7 +267,7 @@ CLAIMS = [
     },
     {
         "id": "C14",
-        "technique": "static analysis: who-constructs / call-graph rule that all tool entry points share one renderer built with the source text; typed-HIR table of arm header boundaries against the wrappability of the header; writer/reader escape inversion; trailing-newline provenance",
+        "technique": "static analysis: who-constructs / call-graph rule that all tool entry points share one renderer built with the source text; typed-HIR table of arm header boundaries against the wrappability of the header; writer/reader escape inversion; trailing-newline provenance; capture/emission agreement of comment indentation; who-may-inspect rule for recorded layout intentions",
         "level_text": "Decides necessary conditions of 'projection, and --check agrees with fmt': check_path and format_path obtain (source, "
                       "formatted) from the same function and compare the same pair; fmt, --check and the language server build the "
                       "formatter with with_source; try_render_unit appends exactly one hardline; the break before an arm's payload is "
@@ -270,12 +275,13 @@ CLAIMS = [
                       "wrapping is read back: F16, repaired); string literals are fixed points (F15, repaired); existential parameters "
                       "re-parse (F18, repaired).",
         "level_note": "NOT decided: idempotence over all starting layouts (Preserve-policy feedback at the other boundaries, blank-line bounds), "
-                      "pun/parenthesis canonical forms. Four confirmed non-idempotent inputs remain on the tree and are NOT detected by these "
-                      "rules (findings/candidates/C14: mid-line block comment creeping, pun recognised only after parenthesis removal (2), "
-                      "layout(ignore) blank line before `=`; since round 2 also telescopes merged only after parenthesis removal and a verbatim "
-                      "region re-indented inside a width directive); they are documented in DESIGN.md, not suppressed. Added after the round-2 "
-                      "seeds: the compared / rendered source is the text as read (symbolic value flow), and a width directive's payload is "
-                      "emitted as the pre-rendered text.",
+                      "pun/parenthesis canonical forms in general. Round 3: ALL confirmed non-idempotent inputs of rounds 1-3 are repaired (F51 block "
+                      "comment after code, F52 pun behind elided parentheses, F53 raw intention under layout(ignore), F54 telescope behind "
+                      "elided parentheses) and each repair has a rule: capture and emission of block comments agree on the opener column "
+                      "unconditionally; the field printers and the telescope collectors look through the groups the printer elides; only "
+                      "the policy functions look inside a recorded BreakIntent. A gap-mutation probe of 5500 variants found no further "
+                      "non-idempotent input (a probe, not a check). Since round 2: the compared / rendered source is the text as read "
+                      "(symbolic value flow), and a width directive's payload is emitted as the pre-rendered text.",
     },
     {
         "id": "C18",
@@ -291,7 +297,10 @@ CLAIMS = [
                       "invariant (each is argued from the checker's guarantees, not proved). Emitters are infallible by type. LLVM support "
                       "is outside ('where supported'). Since round 2 every arm of both lowering passes is pinned by audited traces "
                       "(rules/golden_lowering.json): they alarm on any semantic edit of sps/lower.rs or sps_low/convert.rs, including a "
-                      "correct one, which then needs re-auditing.",
+                      "correct one, which then needs re-auditing. Round 3: the free-variable equations (shared with C19) are checked here "
+                      "too; the AMD64 rsp-parity table agrees modulo 2 with the words each inline instruction's emission moves (GF(2) "
+                      "linear forms; the stack-allocation path is checked dead); the tuple node records the product of its component "
+                      "types, which the lowerer lays it out by (F60: a regression of fix F42, found by a seeding agent, repaired).",
     },
     {
         "id": "C19",
